@@ -72,9 +72,16 @@ def _capture_of(task, ctx, a, spawn_block, node):
     arg = a.arg(spawn_block, 1)
     if task.form == 'closure':
         aggs = [z for z in flow.subtrees(arg) if z[0] == 'agg' and z[2] == task.path]
-        if not aggs or node[0] != 'upvar':
+        if not aggs:
             return None
-        return dict(aggs[0][3]).get(node[1])
+        if node[0] == 'upvar':
+            return dict(aggs[0][3]).get(node[1])
+        if node[0] == 'field' and node[1][0] == 'upvar':
+            # a field of a captured struct (`self.si` of a task object moved into the coroutine)
+            cap = dict(aggs[0][3]).get(node[1][1])
+            if cap is not None and cap[0] == 'agg':
+                return dict(cap[3]).get(node[2])
+        return None
     calls = [z for z in flow.subtrees(arg) if z[0] == 'call' and strip_generics(z[1]) == strip_generics(task.fn)]
     fb = ctx.F.bodies.get(task.fn)
     if not calls or fb is None:
@@ -115,6 +122,18 @@ def find_task(ctx, callee, spawner):
             callers = {b['qpath'] for b, _ in ctx.cg.call_sites(fq)}
             if callers and all(c.startswith(spawner + '::{closure#0}') for c in callers):
                 t = Task(P, 'method', fq)
+    if t is None and P.endswith('::{closure#0}') and P[:-len('::{closure#0}')] not in ctx.F.bodies:
+        # the async fn's shell was inlined (xl/inline.py): the coroutine is then built where the shell was called; it is
+        # the task if it is built only inside the spawner
+        builders = set()
+        for bp, bb in ctx.F.bodies.items():
+            for blk in bb['blocks']:
+                for st in blk['s']:
+                    r = st.get('r')
+                    if r and r['k'] == 'agg' and r.get('ak') == 'coroutine' and r.get('def') == P:
+                        builders.add(bp)
+        if builders and all(c.startswith(spawner + '::{closure#0}') for c in builders):
+            t = Task(P, 'closure')
     if t is None:
         raise AnchorMissing('%s is called from %s, which is neither an async block of %s nor a private async fn called only from it' % (callee, P, spawner))
     cache[callee] = t
@@ -343,7 +362,7 @@ def r16c(ctx):
     for (path, aj, j, jn) in jsites:
         joiners.add(path.split('::{closure')[0])
         ve = aj.variant_edges(j, 'core::option::Option<')
-        some = [tgt for (_, tgt) in ve.get('1', [])]
+        some = [tgt for (_, tgt) in aj.some_edges(ve)]
         if not some:
             ctx.fail('R16c', path, jn, aj.loc(j), 'cannot find the Some arm of the join result')
             continue
